@@ -408,7 +408,7 @@ class World(BaseWorld):
         rel = rng.choice(RELS)
         src = None
         if rng.random() < 0.4:
-            b = self.pick(rng, lambda s: s.t != "num" and s.shadow.is_integer() and len(s.shadow.variables()) <= 3 and s.shadow.degree() <= 3
+            b = self.pick(rng, lambda s: s.t != "num" and s.shadow.is_integer() and len(s.shadow.variables()) <= 3 and s.shadow.degree() <= 3 and maxabs(s.shadow) <= (1 << 16)
                           and not any(str(v).startswith("__a") for v in s.shadow.variables()))
             if b is not None:
                 src = {"slot": b}
